@@ -130,7 +130,7 @@ def pushIn (r : Run) (n : Nat) (rel : Option Nat) (o : Option (List Edge)) : Opt
 
 theorem neighbors_cons (x x' : Engine) (r : Run) (hr : x'.runs = r :: x.runs) (hs : x'.segs = x.segs)
     (n : Nat) (rel : Option Nat) : x'.neighbors n rel = pushOut r n rel (x.neighbors n rel) := by
-  unfold Engine.neighbors pushOut
+  rw [neighbors_eq]; unfold Engine.neighborsFlushed pushOut
   rw [hr, hs]
   simp only [outRuns, List.contains_nil, Bool.false_eq_true, if_false, List.nil_append]
   by_cases ht : r.tombNodes.contains n = true
@@ -168,7 +168,7 @@ theorem neighbors_cons (x x' : Engine) (r : Run) (hr : x'.runs = r :: x.runs) (h
 
 theorem incoming_cons (c : Cfg) (x x' : Engine) (r : Run) (hr : x'.runs = r :: x.runs) (hs : x'.segs = x.segs)
     (n : Nat) (rel : Option Nat) : x'.incoming c n rel = pushIn r n rel (x.incoming c n rel) := by
-  unfold Engine.incoming pushIn
+  rw [incoming_eq]; unfold Engine.incomingFlushed pushIn
   rw [hr, hs]
   simp only [inRuns, List.contains_nil, Bool.false_eq_true, if_false, List.nil_append]
   by_cases ht : r.tombNodes.contains n = true
